@@ -402,6 +402,116 @@ var l2Modes = []string{"clean", "badline", "writefail", "writefail", "badlogin",
 
 func genL2(r *hutil.Rand, i int) Case { return genL2Mode(r, l2Modes[i%len(l2Modes)]) }
 
+const modeMulti = "multisession-writefail-once"
+
+// genL2Multi: SEVERAL audit sessions opened by ONE sshd process (two or three LOGIN records with different ses= and the
+// same pid=) are waiting for their login at the same time, each holding some events; then the login of that pid
+// arrives.  Which of the sessions the correlator gives the login to is its own business (Model/Tracker.v: the choice
+// argument of the scan) - what C15 states is independent of that: an event write the sink rejects is an error the
+// correlator reports, and that error stops the processor.  The sink rejects exactly ONE write (transient), the k-th:
+// k = 0 half of the time, otherwise anywhere among the writes a flush of everything held would make (budget < 0:
+// drawn here; the sweep passes every k in turn).  Judged by the oracle only.
+func genL2Multi(r *hutil.Rand, budget int) (Case, int) {
+	c := Case{Level: 2, Mode: modeMulti, Budget: -1, Transient: true}
+	g := &genState{r: r, seq: uint32(30000 + r.Intn(100000)), pid: 2000 + r.Intn(20000)}
+	sshdPid := 25000 + r.Intn(1000)
+	m := 2 + r.Intn(2)
+	sids := make([]string, m)
+	tracked := map[string]bool{}
+	next := 400 + r.Intn(200)
+	for j := range sids {
+		sids[j] = fmt.Sprint(next)
+		tracked[sids[j]] = true
+		next += 1 + r.Intn(3)
+	}
+	loginID := 0
+	mkLogin := func(pid int) Item {
+		loginID++
+		return Item{Kind: "login", Login: &Login{ID: loginID, PID: pid}}
+	}
+	var items []Item
+	single := func(ses string, pid int, typ string) {
+		e := g.newEv(ses, pid)
+		singleEvent(e, typ)
+		items = append(items, e.recs...)
+	}
+	block := func(n int, ses func() string) int {
+		its, evs := g.kernelBlock(n, ses, func() string {
+			if r.Chance(1, 3) {
+				return "proctitle"
+			}
+			return "proctitle+eoe"
+		})
+		items = append(items, its...)
+		k := 0
+		for _, e := range evs {
+			if tracked[e.ses] {
+				k++
+			}
+		}
+		return k
+	}
+	mix := func() string {
+		if r.Chance(3, 4) {
+			return hutil.Pick(r, sids)
+		}
+		return "4294967295"
+	}
+	if r.Chance(1, 2) {
+		block(1+r.Intn(2), func() string { return "4294967295" })
+	}
+	single("4294967295", sshdPid, "CRED_ACQ")
+	held := 0
+	// the sessions open one after the other, or the later ones after the earlier ones have held something
+	for j, sid := range sids {
+		single(sid, sshdPid, "LOGIN")
+		held++
+		if j == 0 || r.Bool() {
+			single(sid, sshdPid, "USER_START")
+			held++
+		}
+		if r.Chance(1, 3) {
+			held += block(1+r.Intn(2), mix)
+		}
+	}
+	for n := r.Intn(3); n > 0; n-- {
+		if r.Bool() {
+			held += block(1+r.Intn(2), mix)
+		} else {
+			single(hutil.Pick(r, sids), sshdPid, hutil.Pick(r, []string{"USER_CMD", "CRED_REFR", "USER_ACCT"}))
+			held++
+		}
+	}
+	if r.Chance(1, 4) {
+		// one of them has already ended when the login arrives
+		sid := hutil.Pick(r, sids)
+		single(sid, sshdPid, "USER_END")
+		single(sid, sshdPid, "CRED_DISP")
+		held += 2
+	}
+	items = append(items, mkLogin(sshdPid), mkLogin(90000+r.Intn(1000)))
+	for n := r.Intn(3); n > 0; n-- {
+		block(1+r.Intn(2), mix)
+	}
+	for _, sid := range sids {
+		if r.Chance(2, 3) {
+			single(sid, sshdPid, "USER_END")
+			single(sid, sshdPid, "CRED_DISP")
+		}
+	}
+	switch {
+	case budget >= 0:
+		c.Budget = budget
+	case r.Bool():
+		c.Budget = 0
+	default:
+		c.Budget = r.Intn(held)
+	}
+	items = append(items, Item{Kind: "cancel"})
+	c.Items = items
+	return c, held
+}
+
 func genL2Mode(r *hutil.Rand, mode string) Case {
 	c := Case{Level: 2, Mode: mode, Budget: -1}
 	g := &genState{r: r, seq: uint32(30000 + r.Intn(100000)), pid: 2000 + r.Intn(20000)}
